@@ -72,6 +72,8 @@ fn main() {
       "C09" => Some(chain::runes::run(&ctx, "C09")),
       "C10" => Some(chain::runes::run(&ctx, "C10")),
       "C11" => Some(chain::runes::run(&ctx, "C11")),
+      "C12" => Some(chain::sched::run(&ctx)),
+      "C37" => Some(chain::events::run(&ctx)),
       "C03" => Some(chain::inscriptions::run(&ctx, "C03")),
       "C04" => Some(chain::inscriptions::run(&ctx, "C04")),
       "C05" => Some(chain::inscriptions::run(&ctx, "C05")),
